@@ -162,8 +162,27 @@ func WriteBodyFixedSize(w network.Writer, r io.Reader, size int64) error {
 	return err
 }
 
+// maxBodyAllocAtOnce bounds how much is allocated for body bytes that have not arrived yet.
+const maxBodyAllocAtOnce = 4 * 1024 * 1024
+
 func appendBodyFixedSize(r network.Reader, dst []byte, n int) ([]byte, error) {
 	if n == 0 {
+		return dst, nil
+	}
+	if n > maxBodyAllocAtOnce {
+		// n is announced by the peer (Content-Length, chunk size): never allocate it up front,
+		// let the buffers grow with the data that really arrives.
+		for n > 0 {
+			k := n
+			if k > maxBodyAllocAtOnce {
+				k = maxBodyAllocAtOnce
+			}
+			var err error
+			if dst, err = appendBodyFixedSize(r, dst, k); err != nil {
+				return dst, err
+			}
+			n -= k
+		}
 		return dst, nil
 	}
 
